@@ -17,7 +17,7 @@ RULE = ("TC19 messages built field by field from the DO-260B layout: subtype 1-4
         "(speed between the integers enclosing the exact norm and equal to it for whole-knot norms - leg whole_knots has all of them -, track atan2 to 1e-9, heading N*360/1024 iff status, airspeed N-1 (x4) or None iff N=0, VR +-(N-1)*64 or None, "
         "difference +-(N-1)*25 or None iff N=0 (N=127 unconstrained), movement bin of DO-260B table, track N*360/128 iff status). "
         "non-trivial = a zero field, a sign bit set, a supersonic subtype, heading status 0, or a movement breakpoint"
-        ' Also: helper calls on the same string first, one constant context per sweep, 965 real velocity frames judged by the reference field decoding (leg corpus).')
+        ' Also: helper calls on the same string first, one constant context per sweep, 965 real velocity frames judged by the reference field decoding (leg corpus), speed judged by the integers enclosing the exact norm with every whole-knot norm enumerated (leg whole_knots), the decoders first handed damaged forms of the frame, boundary addresses.')
 ASSUMPTIONS = ["surface speed may be any representative inside the DO-260B movement bin [lower, upper)", "TC19 subtypes 0 and 5-7 are reserved and only covered by C14"]
 
 F10 = st.one_of(st.sampled_from([0, 1, 2, 1022, 1023]), gen.uint(0, 1023), gen.uint(0, 1023))
